@@ -147,3 +147,22 @@ func VerifH_ChanFreshRace() {
 	vrt.Assert(got != nil && got == c.Get(), "a concurrent Get sees the one channel")
 	vrt.Cover("chan-fresh-end")
 }
+
+
+// VerifH_ChanMakeRacesGet: on a fresh Chan, Make races the first Get and a later Close:
+// whichever initialises first wins, every Get returns that one channel, and Close closes
+// the channel the observers hold (no orphaned channel, no lost wake-up).
+func VerifH_ChanMakeRacesGet() {
+	c := new(Chan)
+	vrt.Share(c)
+	var g1 chan struct{}
+	d1, d2 := false, false
+	go func() { c.Make(1); d1 = true }()
+	go func() { g1 = c.Get(); d2 = true }()
+	vrt.Quiesce()
+	vrt.Assert(d1 && d2, "Make and Get return")
+	vrt.Assert(g1 != nil && g1 == c.Get(), "the channel handed out first is the channel everybody sees")
+	c.Close()
+	vrt.Assert(isClosed(g1), "Close closes the channel that was handed out (no lost wake-up)")
+	vrt.Cover("chan-make-get-end")
+}
